@@ -362,8 +362,12 @@ func (cs *caseState) classifyNoProgress(v *verdict, idle time.Duration, beats in
 func (cs *caseState) setTimeouts(T time.Duration) (v *verdict, ok bool) {
 	done := make(chan struct{})
 	go func() {
-		for _, c := range cs.cl.conns {
-			c.VerifSetTimeout(T)
+		for i, c := range cs.cl.conns {
+			t := T
+			if i < len(cs.w.NodeT) && cs.w.NodeT[i] > 0 { // bidirectional-load class: a response timeout per node
+				t = time.Duration(cs.w.NodeT[i]) * time.Millisecond
+			}
+			c.VerifSetTimeout(t)
 		}
 		close(done)
 	}()
@@ -525,6 +529,7 @@ func drawStorm(t *rapid.T) *workload {
 		w.Unsol = append(w.Unsol, unsolPlan{From: from, To: to, DelayUs: rapid.IntRange(0, 4*tUs).Draw(t, "unsolDelay")})
 	}
 	addTwins(t, w, tUs/3, 2*tUs/3, 20000)
+	addSizes(t, w)
 	return w
 }
 
